@@ -320,6 +320,11 @@ class Gen(object):
                 it["crypto"] = {"k": "kmip", "reason": self.ch([7, 10])}
             else:
                 it["crypto"] = {"k": "internal"}
+            if self.p(0.06):
+                # Derivation Parameters without Cryptographic Parameters (optional on the wire): refused by the engine
+                # before the backend is asked; handed to the model as the backend's refusal (see impl_engine)
+                it["cp"] = "absent"
+                it["crypto"] = {"k": "kmip", "reason": 7}
             self.created += 1
         elif op == "locate":
             attrs = []
